@@ -246,7 +246,7 @@ def _site_task(args):
     for alt in ort["items"]:
         if is_null_type(alt):
             continue
-        for slabel, v in c14.shapes(mm, vse, alt, k):
+        for slabel, v in c14.shapes(mm, vse, alt, k, site_or=ort):
             if slabel.startswith("max-"):
                 continue
             for rname, rt, rpath in roots:
